@@ -231,7 +231,7 @@ CLAIMS = {
         "nothing (rerun_idempotent: row vectors literally unchanged) and a re-run after pushing facts into any relations equals the least model of the union "
         "of all inputs (monotone_rerun, via lfp(lfp I ∪ J) = lfp(I ∪ J)). For EVERY stratified program with aggregation / negation: the stratified restart theorem "
         "(restart_agg: a completed run from any value between the inputs and the stratified model ends in the stratified model) and its corollary rerun_idempotent_agg "
-        "(Props/C13Agg.lean; aggregators insensitive to input order, proved for the library ones: std_aggPermInvariant). Tied by driving compiled programs through generated histories of run/push/dump. Physical level (Props/C13Phys.lean): rerun_idempotent_phys, monotone_rerun_phys over the generated code's hash indices (Model/EnginePhys.lean).",
+        "(Props/C13Agg.lean; aggregators insensitive to input order, proved for the library ones: std_aggPermInvariant). Tied by driving compiled programs through generated histories of run/push/dump. Physical level (Props/C13Phys.lean): rerun_idempotent_phys, monotone_rerun_phys over the generated code's hash indices (Model/EnginePhys.lean). Props/C13PhysAgg.lean: over the physical indices also for stratified programs with aggregation / negation (restart_phys_agg, rerun_idempotent_phys_agg).",
    design_ref="DESIGN.md §8 C13", note=ENGINE_NOTE + " Parallel re-runs are tied (compiled histories), not proved; F2 and F4 are fixed."),
  "C14": dict(
    engine="tie-B-engine",
@@ -240,7 +240,7 @@ CLAIMS = {
         "run_timeout=false leaves only derivable tuples, keeps every input and a well-formed value (timeout_false_sound); after any number of interruptions "
         "at any points a completing call leaves exactly the least model of the original inputs (resume_complete); the same for every stratified program with "
         "aggregation / negation relative to an uninterrupted reference run (timeout_false_sound_agg, resume_complete_agg, Props/C13Agg.lean). Tied by compiled programs with "
-        "#![generate_run_timeout] under the virtual-clock hook, for EVERY crash point k of every case plus repeated interruptions. Physical level (Props/C13Phys.lean over Model/EnginePhysTimeout.lean): timeout_sound_phys, timeout_true_complete_phys, resume_complete_phys (any number of interruptions: the indices dropped by early returns are rebuilt).",
+        "#![generate_run_timeout] under the virtual-clock hook, for EVERY crash point k of every case plus repeated interruptions. Physical level (Props/C13Phys.lean over Model/EnginePhysTimeout.lean): timeout_sound_phys, timeout_true_complete_phys, resume_complete_phys (any number of interruptions: the indices dropped by early returns are rebuilt). Props/C13PhysAgg.lean: over the physical indices also for stratified programs with aggregation / negation, relative to an uninterrupted reference run (timeout_false_sound_phys_agg, timeout_true_complete_phys_agg, resume_complete_phys_agg).",
    design_ref="DESIGN.md §8 C14", note=ENGINE_NOTE + " The wall clock is replaced by the hook (ascent::internal::verif); lattice programs: Props/C13L."),
  "C19": dict(
    engine="tie-C-ds",
